@@ -463,21 +463,22 @@ func tupleBatch(root string, r *hx.Rng, k int) (out []emitted, st map[string]int
 		if perr != "" {
 			em.ans = "err " + perr
 		}
-		// the property on this case: reported ⇔ d ≠ 0 ∧ end + d < now (loaded: own duration;
-		// not loaded: only if not already reported)
+		// the property on this case: reported ⇔ d ≠ 0 ∧ end + d < now, where (d, end) is the
+		// entry of the not-loaded map when the shard has one (that is what meta sent in this run
+		// and could not be stored on the shard object), else the shard's own duration and end.
 		want := map[uint64]bool{}
-		for _, ps := range p.shards {
-			if specExpired(ps.d, ps.endRel) {
-				want[ps.sid] = true
-			}
-		}
 		loadedID := map[uint64]bool{}
-		for _, ps := range p.shards {
-			loadedID[ps.sid] = true
-		}
+		nilID := map[uint64]bool{}
 		for _, e := range nils {
+			nilID[e.sid] = true
 			if specExpired(e.d, e.rel) {
 				want[e.sid] = true
+			}
+		}
+		for _, ps := range p.shards {
+			loadedID[ps.sid] = true
+			if !nilID[ps.sid] && specExpired(ps.d, ps.endRel) {
+				want[ps.sid] = true
 			}
 		}
 		gotSet := map[uint64]bool{}
@@ -488,6 +489,9 @@ func tupleBatch(root string, r *hx.Rng, k int) (out []emitted, st map[string]int
 			gotSet[s] = true
 		}
 		for _, ps := range p.shards {
+			if nilID[ps.sid] {
+				continue // judged with the not-loaded entry below
+			}
 			if gotSet[ps.sid] && !want[ps.sid] {
 				em.viol = append(em.viol, [2]string{"reported-unexpired", fmt.Sprintf("shard %d duration %d end %+d ns relative to now reported expired", ps.sid, ps.d, ps.endRel)})
 			}
@@ -496,14 +500,11 @@ func tupleBatch(root string, r *hx.Rng, k int) (out []emitted, st map[string]int
 			}
 		}
 		for _, e := range nils {
-			if loadedID[e.sid] {
-				continue // judged with the loaded shard above
-			}
 			if gotSet[e.sid] && !want[e.sid] {
-				em.viol = append(em.viol, [2]string{"reported-unexpired", fmt.Sprintf("not-loaded shard %d duration %d end %+d reported expired", e.sid, e.d, e.rel)})
+				em.viol = append(em.viol, [2]string{"reported-unexpired", fmt.Sprintf("shard %d (not refreshed, loaded=%v): meta sent duration %d end %+d, reported expired", e.sid, loadedID[e.sid], e.d, e.rel)})
 			}
 			if !gotSet[e.sid] && want[e.sid] {
-				em.viol = append(em.viol, [2]string{"expired-not-reported", fmt.Sprintf("not-loaded shard %d duration %d end %+d not reported", e.sid, e.d, e.rel)})
+				em.viol = append(em.viol, [2]string{"expired-not-reported", fmt.Sprintf("shard %d (not refreshed, loaded=%v): meta sent duration %d end %+d, not reported", e.sid, loadedID[e.sid], e.d, e.rel)})
 			}
 		}
 		nExp := len(gotSet)
